@@ -63,6 +63,12 @@ func MapCalls(w *vt.W, rng *rand.Rand, nrandom int, exhaustive bool) {
 		}
 		ch := make(chan ret, 1)
 		go func() {
+			// a panic in the calling goroutine (not in a worker) is what the caller would see: a result of the call
+			defer func() {
+				if p := recover(); p != nil {
+					ch <- ret{nil, fmt.Errorf("Map panicked: %v", p)}
+				}
+			}()
 			r, e := concurrent.Map(span{0, n, &calls, int64(10*n + 10), &sl, nilres}, threads, maxChunk)
 			ch <- ret{r, e}
 		}()
